@@ -130,6 +130,9 @@ def run_case(case):
             if big and r < 0.12:
                 t.run_early_close(*rng.choice([("show", "HEAD:big.txt"), ("log", "-p", "--all"), ("cat-file", "-p", "HEAD:big.txt"), ("--no-pager", "log", "-p"), ("diff", "HEAD~1", "HEAD"), ("blame", "big.txt")]))
                 continue
+            if r < 0.03:
+                t.run_signalled_session(rng.choice(["SIGHUP", "SIGINT", "SIGQUIT", "SIGTERM"]), ignored=rng.random() < 0.6)
+                continue
             if r < 0.18:
                 t.edit(); continue
             if r < 0.28:
